@@ -52,9 +52,11 @@ def concretise(c, i, rng):
     if c.get("switch_codec"):
         comp = ["lz4", "none"][i % 2]          # the merged store is written with the other compressor
     extra = {"merge_comp": "none" if comp == "lz4" else "lz4"} if c.get("switch_codec") else {}
+    if c.get("filtered"):
+        extra |= {"filter_ids": sorted(c["filter_ids"]), "filter_none": c["filter_none"]}
     return extra | {"id": i, "cfg": {"blocksize": c["blocksize"], "comp": comp, "thread": i % 2 == 0, "cache": c["cache"]},
             "segs": segs, "deletes": sorted(c["deletes"]), "merge": c["merge"], "access": ACCESS[i % len(ACCESS)], "seed": rng.randrange(1 << 30),
-            "gen": {k: c[k] for k in ("k", "nb", "tail", "big", "shape", "expect_stack", "merged_blocks", "switch_codec")} | {"blocks": [s["blocks"] for s in c["segs"]], "layers": [s["layers"] for s in c["segs"]]}}
+            "gen": {k: c[k] for k in ("k", "nb", "tail", "big", "shape", "expect_stack", "merged_blocks", "switch_codec", "filtered")} | {"blocks": [s["blocks"] for s in c["segs"]], "layers": [s["layers"] for s in c["segs"]]}}
 
 
 def random_case(i, rng, big=False):
@@ -69,6 +71,9 @@ def random_case(i, rng, big=False):
         dels = dels[1:]
     comp = rng.choice(["none", "lz4", "lz4"])
     extra = {"merge_comp": "none" if comp == "lz4" else "lz4"} if rng.random() < 0.35 else {}    # codec changed before the merge
+    if not extra and rng.random() < 0.3:
+        # a filtered merge: the caller removes a few documents (or none, with / without passing a bitset)
+        extra = {"filter_ids": sorted(set(rng.randrange(1, n + 1) for _ in range(rng.choice([0, 1, 2, n // 3])))), "filter_none": rng.random() < 0.6}
     return extra | {"id": i, "cfg": {"blocksize": rng.choice([1, 64, 300, 4096, 16384]), "comp": comp,
                              "thread": rng.random() < 0.5, "cache": rng.choice([0, 1, 2, 100])},
             "segs": segs, "deletes": dels, "merge": rng.random() < 0.7, "access": rng.choice(ACCESS), "seed": rng.randrange(1 << 30)}
